@@ -25,6 +25,7 @@ RULE = ('strictly monotonic 1-D coordinates (ascending/descending, exactly '
         'values; distinct = digest of the spec.')
 RULE += (' Also: axes of 13-40 cells with repeated query values, a second coordinate in the same file (y = 2x with its own bounds) looked up after the first, cftime noleap calendars, coordinates read from disk.')
 RULE += (' One case in 25 looks values up on every strictly monotonic coordinate of the object bpch1, bpch2 or arlpackedbit return for a reference image, with the bounds variables the reader itself built (same query batches, same oracle; float32 centres without bounds: queries within float32 rounding of a derived edge are left out).')
+RULE += (' For bounds="warn"/"error" four more batches per case: in-range centres plus ONE value, the nearest representable number (float64, or float32 for float32 query arrays) beyond the lowest / highest limit (must be reported) and at or just inside each limit (must not be).')
 ASSUMPTIONS = [
     'a value exactly on an interior edge may be attributed to either '
     'neighbour; exact ties of "nearest" accept both neighbours',
